@@ -12,6 +12,7 @@ import (
 	"math/rand"
 	"os"
 	"sort"
+	"strings"
 	"sync"
 	"sync/atomic"
 	"testing"
@@ -75,6 +76,7 @@ type tapEv struct {
 	Err   string        `json:"err"`
 	Ver   string        `json:"ver,omitempty"`     // version given (Cas)
 	NewV  string        `json:"new_ver,omitempty"` // version produced
+	App   time.Duration `json:"applied,omitempty"` // when the storage executed the call (slow answers: earlier than Ret)
 	Exp   time.Duration `json:"expires,omitempty"` // ExpiresAt of the written record, relative to base
 	Fault string        `json:"fault,omitempty"`
 }
@@ -92,6 +94,9 @@ type tap struct {
 	// honourCtx: like a network backend, refuse a call whose context is already done
 	honourCtx bool
 	casDelay  func() time.Duration
+	// slowBefore / slowAfter: every CasByVersion takes that long before it is executed / before its answer comes
+	// back; a caller whose context ends meanwhile gets the context's error at once (not executed / executed)
+	slowBefore, slowAfter time.Duration
 	// holdAnswer: the answer of the k-th CasByVersion is kept in flight after the call was applied:
 	// applied is closed when the storage has executed it, the call returns when release is closed
 	holdAnswer int
@@ -159,16 +164,35 @@ func (t *tap) CasByVersion(ctx context.Context, r kvs.Record) (kvs.Record, error
 	if t.casDelay != nil {
 		time.Sleep(t.casDelay())
 	}
+	if t.slowBefore > 0 {
+		select {
+		case <-time.After(t.slowBefore):
+		case <-ctx.Done():
+		}
+	}
 	if t.honourCtx && ctx.Err() != nil {
 		t.add(tapEv{Op: "Cas", Call: c, Ret: t.now(), Err: "ctx", Ver: r.Version, Fault: "context-done"})
 		return kvs.Record{}, ctx.Err()
 	}
 	res, err := t.inner.CasByVersion(ctx, r)
+	app := t.now()
 	if t.holdAnswer == k && t.applied != nil {
 		close(t.applied)
 		<-t.release
 	}
-	e := tapEv{Op: "Cas", Call: c, Ret: t.now(), Err: cls(err), Ver: r.Version, NewV: res.Version}
+	if t.slowAfter > 0 {
+		select {
+		case <-time.After(t.slowAfter):
+		case <-ctx.Done():
+			ne := tapEv{Op: "Cas", Call: c, App: app, Ret: t.now(), Err: "ctx", Ver: r.Version, NewV: res.Version, Fault: "context-done-while-the-answer-was-on-its-way"}
+			if err == nil && r.ExpiresAt != nil {
+				ne.Exp = r.ExpiresAt.Sub(t.base)
+			}
+			t.add(ne)
+			return kvs.Record{}, ctx.Err()
+		}
+	}
+	e := tapEv{Op: "Cas", Call: c, App: app, Ret: t.now(), Err: cls(err), Ver: r.Version, NewV: res.Version}
 	if err == nil && r.ExpiresAt != nil {
 		e.Exp = r.ExpiresAt.Sub(t.base)
 	}
@@ -213,7 +237,11 @@ type scen struct {
 	Ks      []int         `json:"ks,omitempty"`        // S2: several storage calls of the renewal chain fail (k-th CasByVersion each)
 	Phase   time.Duration `json:"phase,omitempty"`     // S3: death phase within the renewal cycle; S4: hold time
 	Re      string        `json:"reacquire,omitempty"` // S4: "", "same", "other"
-	Seed    int64         `json:"seed"`
+	// S8: every renewal takes SlowBefore until it is executed and SlowAfter until its answer is back
+	SlowBefore time.Duration `json:"slow_before,omitempty"`
+	SlowAfter  time.Duration `json:"slow_after,omitempty"`
+	ShutHolder bool          `json:"shut_holder,omitempty"` // S2: the holder's provider is shut down right after the acquisition
+	Seed       int64         `json:"seed"`
 }
 
 type finding struct {
@@ -255,8 +283,12 @@ func successes(evs []tapEv) []tapEv {
 func leaseGaps(evs []tapEv, end time.Duration) (string, bool) {
 	succ := successes(evs)
 	for i := 0; i+1 < len(succ); i++ {
-		if succ[i+1].Ret >= succ[i].Exp {
-			return fmt.Sprintf("renewal %d completed at %v, after the lease it renews ran out at %v", i+1, succ[i+1].Ret, succ[i].Exp), true
+		done := succ[i+1].Ret
+		if succ[i+1].App != 0 {
+			done = succ[i+1].App
+		}
+		if done >= succ[i].Exp {
+			return fmt.Sprintf("renewal %d was executed at %v, after the lease it renews ran out at %v", i+1, done, succ[i].Exp), true
 		}
 	}
 	if len(succ) > 0 && end >= succ[len(succ)-1].Exp {
@@ -333,9 +365,11 @@ func holdScenario(sc scen, hold time.Duration) []finding {
 	tH, pH := e.provider(L)
 	_, pC := e.provider(L)
 	tC2, pC2 := e.provider(L)
-	defer pH.Shutdown()
+	var shutH sync.Once
+	defer shutH.Do(pH.Shutdown)
 	defer pC.Shutdown()
 	defer pC2.Shutdown()
+	tH.slowBefore, tH.slowAfter = sc.SlowBefore, sc.SlowAfter
 	if sc.Kind == "S2" {
 		tH.failCas[sc.K] = true
 		for _, k := range sc.Ks {
@@ -366,6 +400,10 @@ func holdScenario(sc scen, hold time.Duration) []finding {
 		h.Lock()
 	}
 	holders.Add(1)
+	if sc.ShutHolder {
+		// the provider is shut down while its Locker is still held: no new attempt succeeds, but the holder holds on
+		shutH.Do(pH.Shutdown)
+	}
 	stop := make(chan struct{})
 	ctx, cancel := context.WithCancel(context.Background())
 	var wg sync.WaitGroup
@@ -710,6 +748,14 @@ func runScenario(sc scen) []finding {
 			}
 		}
 		return holdScenario(sc, time.Duration(last/2+4)*sc.L)
+	case "S8":
+		s := sc
+		s.Kind = "S1"
+		fs := holdScenario(s, 5*sc.L)
+		for i := range fs {
+			fs[i].sig = strings.Replace(fs[i].sig, "/S1", "/S8", 1)
+		}
+		return fs
 	case "S3":
 		return deathScenario(sc)
 	case "S4":
@@ -763,17 +809,25 @@ func quietScenario(sc scen) []finding {
 }
 
 func TestChild(t *testing.T) {
-	idx, total, _, ok := shard.Child()
+	idx, total, part, ok := shard.Child()
 	if !ok {
 		t.Skip("not a shard child")
 	}
 	res := shard.NewResult()
 	list := quietList()
+	if part == "slow" {
+		list = slowList()
+	}
 	for i := idx; i < len(list); i += total {
 		sc := list[i]
 		for attempt := 1; ; attempt++ {
 			cn := startCanary()
-			fs := quietScenario(sc)
+			var fs []finding
+			if sc.Kind == "S7" {
+				fs = quietScenario(sc)
+			} else {
+				fs = runScenario(sc)
+			}
 			close(cn.stop)
 			stall := time.Duration(cn.worst.Load())
 			if stall > sc.L/8 && len(fs) > 0 && attempt < 3 {
@@ -781,7 +835,7 @@ func TestChild(t *testing.T) {
 				continue
 			}
 			res.Evals++
-			res.Counters["scenarios_S7"]++
+			res.Counters["scenarios_"+sc.Kind]++
 			b, _ := json.Marshal(sc)
 			res.Classes = append(res.Classes, string(b))
 			for _, f := range fs {
@@ -806,6 +860,17 @@ func TestChild(t *testing.T) {
 	shard.Emit(res)
 }
 
+// slowList: S8 - a storage that answers, but slowly (well inside half a lease): request slow, answer slow, both.
+// The renewal callbacks block the workers of the timer pool for that long, so every scenario gets a process of
+// its own (a pool shared with dozens of other scenarios would be exhausted: lateness of the harness's making).
+func slowList() []scen {
+	var list []scen
+	for _, L := range []time.Duration{600 * time.Millisecond, time.Second} {
+		list = append(list, scen{Kind: "S8", L: L, SlowBefore: L / 6}, scen{Kind: "S8", L: L, SlowAfter: 3 * L / 10}, scen{Kind: "S8", L: L, SlowBefore: L / 8, SlowAfter: L / 8}, scen{Kind: "S8", L: L, SlowAfter: 3 * L / 10, Acquire: "ctx"})
+	}
+	return list
+}
+
 func quietList() []scen {
 	var list []scen
 	for _, L := range []time.Duration{200 * time.Millisecond, 400 * time.Millisecond} {
@@ -819,7 +884,7 @@ func quietList() []scen {
 func TestCheck(t *testing.T) {
 	run := report.New("C05", "fault_enumeration")
 	defer run.Finish(t)
-	run.Rule("real-clock scenarios with lease L set through a hook, one storage tap per provider: S1 hold for 6 L (20 L thorough) with a TryLock-spinning and a parked contender, the holder acquiring through Lock, through LockWithCtx or through TryLock with a context that is cancelled right after the acquisition (the tap refuses calls whose context is done, as a network backend does); S6 a renewal answered with an error while the holder is unlocking, then another caller holds; S2 the k-th renewal CAS answered by an injected error without executing, for every k<=K, and sets of several failing calls in one tenure ({1,3,5}, {2,4,6}, {1,3,5,7}, {1,2}, {3,4}); during S1/S2 goroutines of the holder's process keep trying TryLock / LockWithCtx on the SAME (held) Locker object; S3 the holder's storage access dies at a phase of the renewal cycle and a parked contender must take over after the last lease ran out; S5 the answer of the k-th renewal is still in flight (applied by the storage) when the holder unlocks and the same Locker locks again, then the late answer arrives (variants: same Locker locks again / another provider's Locker holds next): the new tenure is held 3 L under the monitors; the order invariant of the timer queue (hook) is sampled throughout; S7 (one child process each, nothing else uses the timer pool): the pool already has 2/3/5 idle workers when the lock is taken, hold 4 L; S4 Unlock after hold times around multiples of L/2 with renewals delayed 0-5 ms (Unlock racing a renewal), then nothing / re-acquisition by the same / another Locker. In S1-S3 the caller that takes over after waiting holds for 3 L under the same monitors (its first lease must be a full one). Monitors over the tap log and probes of the record: exclusion, lease gap (each renewal completes before the lease it renews runs out), record present while held, renewal chain survives a transient error, take-over never before and at most L+2 s after the last lease ran out, at most one failing stale renewal after Unlock. distinct = distinct (scenario kind, L, k / phase / re-acquisition) instances run")
+	run.Rule("real-clock scenarios with lease L set through a hook, one storage tap per provider: S1 hold for 6 L (20 L thorough) with a TryLock-spinning and a parked contender, the holder acquiring through Lock, through LockWithCtx or through TryLock with a context that is cancelled right after the acquisition (the tap refuses calls whose context is done, as a network backend does); S6 a renewal answered with an error while the holder is unlocking, then another caller holds; S2 the k-th renewal CAS answered by an injected error without executing, for every k<=K, and sets of several failing calls in one tenure ({1,3,5}, {2,4,6}, {1,3,5,7}, {1,2}, {3,4}); during S1/S2 goroutines of the holder's process keep trying TryLock / LockWithCtx on the SAME (held) Locker object; S3 the holder's storage access dies at a phase of the renewal cycle and a parked contender must take over after the last lease ran out; S5 the answer of the k-th renewal is still in flight (applied by the storage) when the holder unlocks and the same Locker locks again, then the late answer arrives (variants: same Locker locks again / another provider's Locker holds next): the new tenure is held 3 L under the monitors; the order invariant of the timer queue (hook) is sampled throughout; S8 (one child process each) every renewal is slow but well inside half a lease (request slow L/6, answer slow 0.3 L, both L/8; a caller whose context ends meanwhile gets the context's error), hold 5 L; S2 also with the holder's provider shut down right after the acquisition (the holder holds on); S7 (one child process each, nothing else uses the timer pool): the pool already has 2/3/5 idle workers when the lock is taken, hold 4 L; S4 Unlock after hold times around multiples of L/2 with renewals delayed 0-5 ms (Unlock racing a renewal), then nothing / re-acquisition by the same / another Locker. In S1-S3 the caller that takes over after waiting holds for 3 L under the same monitors (its first lease must be a full one). Monitors over the tap log and probes of the record: exclusion, lease gap (each renewal completes before the lease it renews runs out), record present while held, renewal chain survives a transient error, take-over never before and at most L+2 s after the last lease ran out, at most one failing stale renewal after Unlock. distinct = distinct (scenario kind, L, k / phase / re-acquisition) instances run")
 	run.Assume("two-sided time bounds are guarded by a stall canary: a bound broken while the canary saw a stall above L/8 is repeated (up to 3 times) and only a repeat without stall counts")
 	run.Assume("a transient renewal failure is an attempt that was not applied (request lost); unacknowledged but applied renewals are not generated")
 
@@ -854,6 +919,10 @@ func TestCheck(t *testing.T) {
 		}
 		for k := 1; k <= 2; k++ {
 			list = append(list, scen{Kind: "S6", L: L, K: k})
+		}
+		// the holder's provider is shut down while the lock is held; later a renewal fails transiently
+		for k := 1; k <= 3; k++ {
+			list = append(list, scen{Kind: "S2", L: L, K: k, ShutHolder: true})
 		}
 		for i := 0; i < run.Pick(45, 120); i++ {
 			mult := 1 + rng.Intn(4)
@@ -890,6 +959,13 @@ func TestCheck(t *testing.T) {
 	go func() {
 		defer cwg.Done()
 		for c := range shard.Run(run, "TestChild", "quiet", len(quietList()), 10*time.Minute) {
+			run.DistinctStr(c)
+		}
+	}()
+	cwg.Add(1)
+	go func() {
+		defer cwg.Done()
+		for c := range shard.Run(run, "TestChild", "slow", len(slowList()), 10*time.Minute) {
 			run.DistinctStr(c)
 		}
 	}()
